@@ -179,31 +179,36 @@ func c04CtorOrder(p *Prog, r *Report, rule string) {
 func c11Chunks(p *Prog, r *Report, rule string) {
 	if fi := p.Func("(*" + pkgDelivery + ".Service).GetFile"); fi != nil {
 		info := fi.Pkg.TypesInfo
-		// n, err = content.Read(chunk)
+		// n, err = content.Read(chunk), in the handler or in a helper spliced into it
 		var bufObj, nObj types.Object
-		ast.Inspect(fi.Decl.Body, func(x ast.Node) bool {
-			if as, ok := x.(*ast.AssignStmt); ok && len(as.Lhs) == 2 && len(as.Rhs) == 1 {
+		fl := p.FlatInl(fi)
+		for _, gn := range fl.Nodes {
+			if as, ok := gn.Ast.(*ast.AssignStmt); ok && len(as.Lhs) == 2 && len(as.Rhs) == 1 {
 				if c, ok := ast.Unparen(as.Rhs[0]).(*ast.CallExpr); ok && len(c.Args) == 1 {
 					if sel, ok := c.Fun.(*ast.SelectorExpr); ok && sel.Sel.Name == "Read" {
 						bufObj, nObj = objOf(info, c.Args[0]), objOf(info, as.Lhs[0])
 					}
 				}
 			}
-			return true
-		})
+		}
 		good := false
 		var at ast.Node = fi.Decl
-		ast.Inspect(fi.Decl.Body, func(x ast.Node) bool {
-			if kv, ok := x.(*ast.KeyValueExpr); ok {
-				if k, ok := kv.Key.(*ast.Ident); ok && k.Name == "Chunk" {
-					at = kv
-					if se, ok := ast.Unparen(kv.Value).(*ast.SliceExpr); ok && objOf(info, se.X) == bufObj && se.Low == nil && se.High != nil && objOf(info, se.High) == nObj && nObj != nil {
-						good = true
+		for _, gn := range fl.Nodes {
+			if gn.Ast == nil {
+				continue
+			}
+			ast.Inspect(gn.Ast, func(x ast.Node) bool {
+				if kv, ok := x.(*ast.KeyValueExpr); ok {
+					if k, ok := kv.Key.(*ast.Ident); ok && k.Name == "Chunk" {
+						at = kv
+						if se, ok := ast.Unparen(kv.Value).(*ast.SliceExpr); ok && objOf(info, se.X) == bufObj && se.Low == nil && se.High != nil && objOf(info, se.High) == nObj && nObj != nil {
+							good = true
+						}
 					}
 				}
-			}
-			return true
-		})
+				return true
+			})
+		}
 		r.Check(good, rule, "(*"+pkgDelivery+".Service).GetFile#chunk-bounds", p.pos(at), "the chunk sent is buf[:n] of the Read that filled it", "the server does not send exactly the n bytes the Read returned: the last chunk carries stale bytes of the previous one (or is cut)")
 	}
 	// ---- the stream writer (helpers of the writer type are followed) ----
